@@ -84,6 +84,22 @@ CHECKS.update({
         note='backward-pass specification validated against real autograd in setup; dilation 1, groups 1', ref='DESIGN.md 3/C15'),
 })
 
+CHECKS.update({
+    'C02': dict(
+        text='W=2..4 (6) simulated ranks each run the real KFACPreconditioner (every divisor k as float k/W and the strategy enums, colocate on/off, '
+             'COMPUTE/MEMORY, bucket cap 0 / symbolic / huge, symmetry-aware, eigen / prediv / inverse, hook or step updates, 1-2 steps) on their own '
+             'symbolic micro-batch with a common symbolic gradient; z3 proves every rank ends with exactly the gradients of the single-process '
+             'reference state machine on the union batch (LAPACK uninterpreted with congruence), including the shared clip scale.',
+        note='exact reals; simulator contract for torch.distributed (values of matched collectives are schedule independent; 3 baton policies run); '
+             'DDP precondition: equal gradients on all ranks before step()', ref='DESIGN.md 3/C02'),
+    'C08': dict(
+        text='One real TorchDistributedCommunicator per simulated rank; every tensor element symbolic, bucket capacity a symbolic real (all feasible '
+             'bucketings are explored), sequences/shapes/dtype tags/flags/group mixtures (incl. distinct equal-size groups of a 2x2 grid, sub-groups, '
+             'singleton) enumerated, 1-2 fill/flush cycles. z3 proves every future equals the unbucketed allreduce in value/shape/dtype; the event log '
+             'shows each tensor sent exactly once in its own group, multi-tensor buckets within capacity, nothing pending after flush.',
+        note='exact reals; simulator contract; one dtype per sequence', ref='DESIGN.md 3/C08'),
+})
+
 NOT_YET = {
 }
 
